@@ -128,6 +128,41 @@ class Closure:
         self.node, self.env, self.fi = node, env, fi
 
 
+PYG_ALIAS = {"Whitespace": "Text.Whitespace", "String": "Literal.String", "Number": "Literal.Number", "Token": ""}
+
+
+class PygT:
+    """a pygments token type (Token.Comment.Single ...): equality is by name, `t in Parent` is the sub-type test"""
+
+    def __init__(self, name: str):
+        first = name.split(".")[0]
+        self.name = (PYG_ALIAS[first] + name[len(first):]) if first in PYG_ALIAS else name
+        self.name = self.name.strip(".")
+
+    def __repr__(self):
+        return "Token." + self.name
+
+    def __eq__(self, other):
+        return isinstance(other, PygT) and other.name == self.name
+
+    def __hash__(self):
+        return hash(("pyg", self.name))
+
+    def within(self, parent: "PygT") -> bool:
+        return parent.name == "" or self.name == parent.name or self.name.startswith(parent.name + ".")
+
+
+def as_pygt(v):
+    """PygT for a PygT or for the external marker of a name imported from pygments.token, else None"""
+    if isinstance(v, PygT):
+        return v
+    if isinstance(v, T) and v[0] == "external":
+        full = v[1].replace(":", ".")
+        if full.startswith("pygments.token."):
+            return PygT(full[len("pygments.token."):])
+    return None
+
+
 class Deque(list):
     """collections.deque as a list with the deque methods"""
 
@@ -339,11 +374,89 @@ class MiniInterp:
                 if not (suppressed and exc_is_caught(ex.name, suppressed)):
                     raise
             return
+        if isinstance(st, ast.Match):
+            subj = self.ev(st.subject, env, fi)
+            for case in st.cases:
+                binds = {}
+                if self.match_pattern(case.pattern, subj, binds, env, fi):
+                    env.update(binds)
+                    if case.guard is None or self.truth(self.ev(case.guard, env, fi)):
+                        self.block(case.body, env, fi)
+                        return
+            return
         if isinstance(st, (ast.Import, ast.ImportFrom, ast.Global, ast.Nonlocal)):
             return
         if isinstance(st, ast.Assert):
             return
         raise Unknown(f"statement {type(st).__name__} at line {getattr(st, 'lineno', '?')}")
+
+    def match_pattern(self, p, v, binds, env, fi) -> bool:
+        if isinstance(p, ast.MatchValue):
+            return self.equal(v, self.ev(p.value, env, fi))
+        if isinstance(p, ast.MatchSingleton):
+            return v is p.value
+        if isinstance(p, ast.MatchAs):
+            if p.pattern is not None and not self.match_pattern(p.pattern, v, binds, env, fi):
+                return False
+            if p.name is not None:
+                binds[p.name] = v
+            return True
+        if isinstance(p, ast.MatchOr):
+            for q in p.patterns:
+                b2 = {}
+                if self.match_pattern(q, v, b2, env, fi):
+                    binds.update(b2)
+                    return True
+            return False
+        if isinstance(p, ast.MatchSequence):
+            if not isinstance(v, (list, tuple)) or isinstance(v, T):
+                if isinstance(v, (Sym, Lin, str, dict)) or v is None or isinstance(v, (int, float)):
+                    return False
+                raise Unknown("sequence pattern on this value")
+            stars = [i for i, q in enumerate(p.patterns) if isinstance(q, ast.MatchStar)]
+            if not stars:
+                return len(v) == len(p.patterns) and all(self.match_pattern(q, x, binds, env, fi) for q, x in zip(p.patterns, v))
+            i = stars[0]
+            after = len(p.patterns) - i - 1
+            if len(v) < len(p.patterns) - 1:
+                return False
+            if not all(self.match_pattern(q, x, binds, env, fi) for q, x in zip(p.patterns[:i], v[:i])):
+                return False
+            if p.patterns[i].name is not None:
+                binds[p.patterns[i].name] = list(v[i:len(v) - after])
+            return all(self.match_pattern(q, x, binds, env, fi) for q, x in zip(p.patterns[i + 1:], v[len(v) - after:]))
+        if isinstance(p, ast.MatchMapping):
+            if not isinstance(v, dict):
+                return False
+            for k, q in zip(p.keys, p.patterns):
+                kk = self.ev(k, env, fi)
+                if kk not in v or not self.match_pattern(q, v[kk], binds, env, fi):
+                    return False
+            if p.rest is not None:
+                used = [self.ev(k, env, fi) for k in p.keys]
+                binds[p.rest] = {k: x for k, x in v.items() if k not in used}
+            return True
+        if isinstance(p, ast.MatchClass):
+            c = self.ev(p.cls, env, fi)
+            if not self.isinstance_(v, c):
+                return False
+            if p.patterns:
+                if isinstance(c, T) and c[0] == "builtin" and len(p.patterns) == 1:
+                    return self.match_pattern(p.patterns[0], v, binds, env, fi)      # int(x), str(x) capture the value
+                names = None
+                if isinstance(c, T) and c[0] == "class":
+                    fl = c[1].dataclass_fields()
+                    names = [n for n, _ in fl] if fl else None
+                if names is None or len(p.patterns) > len(names):
+                    raise Unknown("positional class pattern")
+                for nm, q in zip(names, p.patterns):
+                    if not self.match_pattern(q, self.getattr(v, nm, fi, p), binds, env, fi):
+                        return False
+            for nm, q in zip(p.kwd_attrs, p.kwd_patterns):
+                if not self.match_pattern(q, self.getattr(v, nm, fi, p), binds, env, fi):
+                    return False
+            return True
+        raise Unknown(f"pattern {type(p).__name__}")
 
     def assign(self, t, v, env, fi):
         if isinstance(t, ast.Name):
@@ -407,6 +520,9 @@ class MiniInterp:
     def equal(self, a, b) -> bool:
         if a is b:
             return True
+        if isinstance(a, PygT) or isinstance(b, PygT):
+            pa, pb = as_pygt(a), as_pygt(b)
+            return pa is not None and pb is not None and pa.name == pb.name
         for x, y in ((a, b), (b, a)):
             if isinstance(x, Sym) and x.cls is not None:
                 m = x.cls.find_method("__eq__")
@@ -432,6 +548,8 @@ class MiniInterp:
             raise Unknown("equality")
 
     def contains(self, coll, a) -> bool:
+        if isinstance(a, PygT) and as_pygt(coll) is not None:
+            return a.within(as_pygt(coll))
         if isinstance(coll, ISet):
             return any(self.equal(x, a) for x in coll.xs)
         if isinstance(coll, dict):
@@ -749,7 +867,7 @@ class MiniInterp:
             r = self.contains(b, a)
             return r if isinstance(op, ast.In) else not r
         if isinstance(op, (ast.Eq, ast.NotEq)) and ((isinstance(a, Sym) and a.cls is not None) or (isinstance(b, Sym) and b.cls is not None)
-                                                  or isinstance(a, ISet) or isinstance(b, ISet)):
+                                                  or isinstance(a, (ISet, PygT)) or isinstance(b, (ISet, PygT))):
             r = self.equal(a, b)
             return r if isinstance(op, ast.Eq) else not r
         if isinstance(a, (Sym, Lin)) or isinstance(b, (Sym, Lin)):
@@ -1232,6 +1350,14 @@ class MiniInterp:
         return v
 
     def construct(self, ci, args, kwargs, node, fi):
+        ms = self.enum_members(ci)
+        if ms is not None:
+            if len(args) != 1:
+                raise Unknown(f"enum {ci.name} called with {len(args)} arguments")
+            for nm, val in ms:
+                if (isinstance(val, Sym) and self.equal(val.fields.get("value"), args[0])) or (not isinstance(val, Sym) and val == args[0]):
+                    return val
+            raise PyRaise("ValueError", node)
         obj = Sym(ci.name + "()", _cls=ci)
         init = ci.find_method("__init__")
         if init is not None:
@@ -1295,6 +1421,8 @@ class MiniInterp:
                     return acc.simplify()
                 if name == "bool":
                     return self.truth(a2[0]) if a2 else False
+                if name == "str" and a2 and as_pygt(a2[0]) is not None and not isinstance(a2[0], str):
+                    return repr(as_pygt(a2[0]))
                 if name == "str" and a2 and isinstance(a2[0], (Sym, Lin)):
                     return Sym("fstring", parts=[a2[0]])
                 if any(isinstance(x, (Sym, Lin)) for a in a2 for x in (a if isinstance(a, (list, tuple)) else [a])):
@@ -1457,3 +1585,12 @@ def const_call(prj: Project, fi: FuncInfo, call: ast.Call, argvals: list):
     if isinstance(v, (int, bool, str, tuple, type(None))):
         return v
     raise Unknown("non-constant result")
+
+
+def make_token(it: "MiniInterp", prj: Project, kind: str, value: str, line: int = 1, column: int = 1):
+    """an instance of the repo's Token (built by interpreting its constructor) with a pygments type of the given kind"""
+    tc = prj.cls("codelimit.common.Token:Token")
+    lc = prj.cls("codelimit.common.Location:Location")
+    anchor = prj.func(tc.find_method("__init__").qual) if tc.find_method("__init__") else next(iter(prj.funcs.values()))
+    loc = it.construct(lc, [line, column], {}, None, anchor)
+    return it.construct(tc, [loc, PygT(kind), value], {}, None, anchor)
